@@ -95,7 +95,7 @@ everything appended — whether holes are realised by zero-writes (`SQFS_FILE_OP
 hard error), after a final `flush` the file itself holds them. -/
 theorem write_all_spec : ∀ (ops : List OOp) (st : OStream) (idx : Nat) (os : OS), noHard os.sc = true →
     ∃ os', runOOps idx st ops os = ((.ok, idx + ops.length), ops.foldl stepRes st, os') ∧ noHard os'.sc = true ∧
-      runOOps idx st ops OS.full = ((.ok, idx + ops.length), ops.foldl stepRes st, (runOOps idx st ops OS.full).2.2) ∧
+      (∃ osf, runOOps idx st ops OS.full = ((.ok, idx + ops.length), ops.foldl stepRes st, osf)) ∧
       logical (ops.foldl stepRes st) = logical st ++ (ops.map oopBytes).flatten ∧
       (ops.foldl stepRes st).noSparse = st.noSparse ∧
       (st.skew = 0 → (ops.foldl stepRes st).skew = 0) ∧
@@ -103,18 +103,18 @@ theorem write_all_spec : ∀ (ops : List OOp) (st : OStream) (idx : Nat) (os : O
         (ops.foldl stepRes st).out = logical st ++ (ops.map oopBytes).flatten) := by
   intro ops
   induction ops with
-  | nil => intro st idx os hn; exact ⟨os, rfl, hn, rfl, by simp, rfl, fun h => h, by simp⟩
+  | nil => intro st idx os hn; exact ⟨os, rfl, hn, ⟨_, rfl⟩, by simp, rfl, fun h => h, by simp⟩
   | cons op ops ih =>
     intro st idx os hn
     obtain ⟨os1, h1, hn1⟩ := ostreamStep_det st op os hn
     obtain ⟨osf, h1f, hnf⟩ := ostreamStep_det st op OS.full (by simp [noHard, OS.full])
     obtain ⟨f1, f2, f3, f4⟩ := stepRes_facts st op
     obtain ⟨os2, h2, hn2, _, hl2, hns2, hk2, hflush⟩ := ih (stepRes st op) (idx + 1) os1 hn1
-    obtain ⟨_, h2f, _, _⟩ := ih (stepRes st op) (idx + 1) osf hnf
+    obtain ⟨osf2, h2f, _, _⟩ := ih (stepRes st op) (idx + 1) osf hnf
     have hidx : idx + 1 + ops.length = idx + (ops.length + 1) := by omega
     refine ⟨os2, ?_, hn2, ?_, ?_, by rw [List.foldl_cons, hns2, f2], fun h => hk2 (f3 h), ?_⟩
     · simp only [runOOps, h1, h2, List.length_cons, List.foldl_cons, hidx]
-    · simp only [runOOps, h1f, h2f, List.length_cons, List.foldl_cons, hidx]
+    · exact ⟨osf2, by simp only [runOOps, h1f, h2f, List.length_cons, List.foldl_cons, hidx]⟩
     · rw [List.foldl_cons, hl2, f1]; simp
     · intro hk hlast
       rw [List.foldl_cons]
